@@ -393,6 +393,6 @@ theorem stat_reuse_keeps_statistics (K : Calc R S) (now : Nat) (new : List R) (o
 
 /-- what "the statistic" is for the three managers: the breaker's window counters, the flow controller's read statistic -/
 theorem cb_reuse_keeps_counters (r : CbRule) (st : CbSt) (now : Nat) : (cbCalc.reuse r st now).arr = st.arr := rfl
-theorem flow_reuse_keeps_stat (r : FlowRule) (st : FlowSt) (now : Nat) : (flowCalc.reuse r st now).statId = st.statId := rfl
+theorem flow_reuse_keeps_stat (r : FlowRule) (st : FlowSt) (now : Nat) : (flowCalc.reuse r st now).stat = st.stat := rfl
 
 end Sentinel.C14
